@@ -27,6 +27,8 @@ def gen_cases(rng, n, max_depth):
         if H.count_nodes(r) > 12:
             continue
         out.append({"routine": r, "n_eval": 2, "eval_seed": rng.randint(0, 10**9)})
+        if rng.random() < 0.3:
+            out[-1]["remap"] = rng.randint(1, 10**6)   # handed over as an edited Routine object (see impl_highwater)
     return out
 
 
